@@ -43,6 +43,11 @@ class TowerHarness:
             raise Inconclusive("no feasible path through %s" % fname)
         return out
 
+    def require_justified(self):
+        if self.oracle.unjustified:
+            raise Inconclusive("%d branch(es) on ring expressions were neither identities nor certified non-zero by the case "
+                               "hypotheses (executed as for a generic point)" % len(self.oracle.unjustified))
+
     def stats(self):
         return {"queries": self.ring.queries + getattr(self.I, "vc_count", 0), "solver_s": self.ring.solver_time,
                 "functions": self.functions}
